@@ -86,8 +86,8 @@ class C19(Prop):
                            "asyncio.Queue/wait_for (CPython 3.12)"],
                   "stub": ["event loop clock/selector", "ASGI/WSGI server peers", "queue.Queue/executor/Future waiting (SimThreads)", "EventSource client (reference parser)"]}
     hard_probes = ("ping_interleaved", "rechunked", "exotic_separator_in_data", "same_dict_twice", "wsgi_run", "asgi_run")
-    quick_runs = 40000
-    thorough_runs = 600000
+    quick_runs = 120000
+    thorough_runs = 1500000
     batch = 250
 
     def gen_plan(self, t):
